@@ -90,7 +90,19 @@ def parseEvent (t : String) : Option (Option Op) :=
 partial def parseProgram : List String → Option (List (Option Op))
   | [] => some []
   | t :: rest =>
-    if t.startsWith "*" then
+    if t.startsWith "#" then
+      -- #N[ body ]: the body N times, every '%' in a token replaced by the repetition number
+      match ((t.drop 1).dropEnd 1).toString.toNat? with
+      | none => none
+      | some n =>
+        let body := rest.takeWhile (· ≠ "]")
+        let after := (rest.dropWhile (· ≠ "]")).drop 1
+        if body.length == rest.length then none else
+        let reps := (List.range n).map fun r => body.map fun tok => tok.replace "%" (toString r)
+        match reps.flatten.mapM parseEvent, parseProgram after with
+        | some b, some a => some (b ++ a)
+        | _, _ => none
+    else if t.startsWith "*" then
       match ((t.drop 1).dropEnd 1).toString.toNat? with
       | none => none
       | some n =>
